@@ -24,6 +24,7 @@ type JobSpec struct {
 	MaxSteps int            `json:"max_steps"`
 	Budget   int            `json:"budget_s"`
 	Twin     bool           `json:"twin"` // vacuity twin: must produce a violation
+	Env      bool           `json:"env"`  // relies on environment stubs (network libraries): no native run
 }
 
 type PropSpec struct {
@@ -51,6 +52,7 @@ type CexFile struct {
 	Params    map[string]int `json:"params"`
 	Conc      bool           `json:"conc"`
 	Race      bool           `json:"race"`
+	Env       bool           `json:"env"`
 	Violation *Violation     `json:"violation"`
 	Nondet    []NondetRec    `json:"nondet"`
 	Trail     []TrailRec     `json:"trail"`
@@ -231,6 +233,9 @@ func confirmCex(p *Program, repo, harnessDir string, c *CexFile, path string) (b
 	if !ok {
 		return false, msg
 	}
+	if c.Env {
+		return true, msg + " (harness relies on environment stubs of network libraries: no native run)"
+	}
 	if c.Conc {
 		return true, msg + " (concurrent scenario: schedule replayed in the engine on the real SSA; no native schedule replay)"
 	}
@@ -375,7 +380,7 @@ func cmdCheck(args []string) {
 				continue
 			}
 			nviol++
-			c := &CexFile{Property: *prop, Harness: j.H, Params: j.P, Conc: j.Conc, Race: j.Race, Violation: v, Nondet: v.Nondet, Trail: v.Trail}
+			c := &CexFile{Property: *prop, Harness: j.H, Params: j.P, Conc: j.Conc, Race: j.Race, Env: j.Env, Violation: v, Nondet: v.Nondet, Trail: v.Trail}
 			path := filepath.Join(cexDir, fmt.Sprintf("%s-%s-%d.json", j.H, strings.ReplaceAll(paramStr(j.P), ",", "_"), vi))
 			writeJSON(path, c)
 			ok, msg := confirmCex(p, *repo, *hd, c, path)
@@ -392,6 +397,37 @@ func cmdCheck(args []string) {
 				}
 			}
 		}
+	}
+	// translator validation: a completed path of each of (up to) two sequential jobs is re-run
+	// natively (go test -overlay) with the solver's values; the natively compiled harness must
+	// complete with all its assertions holding, as the engine predicted.
+	nvalid := 0
+	for i, r := range results {
+		if nvalid >= 2 || exit != 0 {
+			break
+		}
+		j := jobs[i]
+		if j.Conc || j.Race || j.Twin || j.Env || r.Status != "PASS" || len(r.sampleCex) == 0 {
+			continue
+		}
+		c := r.sampleCex[0]
+		c.Property = *prop
+		c.Harness = j.H
+		c.Violation = &Violation{Sig: "sample", Kind: "none"}
+		path := filepath.Join(cexDir, fmt.Sprintf("sample-%s-%s.json", j.H, strings.ReplaceAll(paramStr(j.P), ",", "_")))
+		writeJSON(path, c)
+		got, txt, err := nativeReplay(*repo, *hd, harnessDirOf(p, j.H), c, path)
+		if err != nil || got != "OK" {
+			tail := txt
+			if len(tail) > 800 {
+				tail = tail[len(tail)-800:]
+			}
+			problems = append(problems, fmt.Sprintf("TRANSLATOR-MISMATCH %s(%s): engine predicted a clean path, native run gave %q %v %s", j.H, paramStr(j.P), got, err, tail))
+			exit = 2
+			continue
+		}
+		nvalid++
+		nreplayed++
 	}
 	for _, l := range lines {
 		fmt.Println(l)
